@@ -124,10 +124,22 @@ for _i, _c in enumerate(CALLS):
 for _i, _c in enumerate(ARROWS):
     TREE2ATOM[_c[1]] = f'11.{_i}'
 
-# type texts by index; 0-3 are SingleTypes (usable after cast/castable as), 4-5 SequenceTypes only.
-# occurrence indicators * and + are left out: after a SequenceType a following `*`/`+` token is an
-# occurrence indicator by the W3C lexical constraint xgc:occurrence-indicators, outside the level table
-TYPES = ['xs:integer', 'xs:string', 'xs:decimal?', 'xs:boolean', 'item()', 'node()']
+# type tokens: `ty n` = base type n // 4 with occurrence indicator n % 4 ('' ? * +), as in EPV/Spec/EBNF.lean (tyBase, tyOcc);
+# base 0 is empty-sequence() (no indicator).  The W3C lexical constraint xgc:occurrence-indicators is part of the Lean
+# spec (`absorbOcc`): a `+ * ?` operator token directly after a type without indicator is absorbed into the type.
+BASES = ['empty-sequence()', 'xs:integer', 'xs:string', 'xs:decimal', 'xs:boolean', 'item()', 'node()', 'element()',
+         'attribute()', 'function(*)', 'map(*)', 'array(*)']
+OCC = ['', '?', '*', '+']
+ATOMIC_BASES = [1, 2, 3, 4]
+TYPES = [b + o for b in BASES for o in OCC]       # index n = 4 * base + occurrence
+
+
+def type_ids(ver: str, sym: str) -> list[int]:
+    """type tokens a typed operator may be followed by in a version"""
+    if sym in ('cast', 'castable'):
+        return [4 * b + o for b in ATOMIC_BASES for o in (0, 0, 1)]
+    nb = {'20': 9, '30': 10, '31': 12}.get(base_of(ver), 9)
+    return [0, 0] + [4 * b + o for b in range(1, nb) for o in range(4)]
 
 
 def ty_text(n: int) -> str:
@@ -447,7 +459,7 @@ def probe_guards(ver: str, rows: list[dict]) -> None:
         if k == 'infix':
             cand = [f'n1 {s} n2', f'$v1 {s} n2', f'n1 {s} 2']
         elif k == 'typed':
-            cand = [f'n1 {TYPED_KEYWORD[s]} xs:integer']
+            cand = [f'n1 {TYPED_KEYWORD[s]} xs:integer?']       # a type that carries its indicator (xgc:occurrence-indicators)
         elif k == 'bracket':
             cand = [f'n1 {s} 1 {CLOSER_TEXT[r["led"]["close"]]}', f'$v1 {s} 1 {CLOSER_TEXT[r["led"]["close"]]}']
         else:
@@ -905,9 +917,21 @@ def gen_tree(rng, V: VInfo, size: int):
             k = rng.choice([0, 1, 1, 7, 6])
             return ('p', p, ('a', k, rng.choice(atom_ids(V.ver, k))))
         return ('p', p, gen_tree(rng, V, size - 1))
+    if r < 0.80 and V.typed and size >= 2:
+        # a typed expression directly followed by `*`, `+` (or `?` in 3.1): the occurrence-indicator cases
+        o = rng.choice(V.typed)
+        n = rng.choice(type_ids(V.ver, V.sym[o]))
+        follow = [x for x in ('*', '+', '?') if x in V.idx and V.rows[V.idx[x]]['led']['kind'] == 'infix']
+        f = V.idx[rng.choice(follow)]
+        left = ('t', o, gen_tree(rng, V, size - 2 if rng.random() < 0.5 else 0), n)
+        if rng.random() < 0.35:
+            # `T * * 2`: the first operator token is the indicator
+            return ('b', f, ('b', V.idx[rng.choice(follow)], left, gen_atom(rng, V)), gen_atom(rng, V)) \
+                if rng.random() < 0.3 else ('occ2', f, left, gen_atom(rng, V))
+        return ('b', f, left, gen_atom(rng, V))
     if r < 0.84 and V.typed:
         o = rng.choice(V.typed)
-        n = rng.randrange(4) if V.sym[o] in ('cast', 'castable') else rng.randrange(len(TYPES))
+        n = rng.choice(type_ids(V.ver, V.sym[o]))
         return ('t', o, gen_tree(rng, V, size - 1), n)
     if r < 0.96 and V.bracket:
         o = rng.choice(V.bracket)
@@ -937,6 +961,8 @@ def unparse(rng, V: VInfo, t, paren: float) -> list:
             return [t]
         if k == 'b':
             return wrap(t[2]) + [('o', t[1])] + wrap(t[3])
+        if k == 'occ2':
+            return go(t[2]) + [('o', t[1]), ('o', t[1])] + go(t[3])
         if k == 'p':
             return [('o', t[1])] + wrap(t[2])
         if k == 't':
@@ -949,7 +975,35 @@ def unparse(rng, V: VInfo, t, paren: float) -> list:
     return go(t)
 
 
+def absorb_occ(V: VInfo, toks: list) -> list:
+    """Python mirror of EPV.Syn.absorbOcc (only used by the generator's filters)"""
+    out, i = [], 0
+    occ = {'?': 1, '*': 2, '+': 3}
+    while i < len(toks):
+        t = toks[i]
+        if t[0] == 'o' and i + 2 < len(toks) and toks[i + 1][0] == 't' and toks[i + 2][0] == 'o' \
+                and V.sym[toks[i + 2][1]] in occ:
+            n, k = toks[i + 1][1], occ[V.sym[toks[i + 2][1]]]
+            single = V.sym[t[1]] in ('cast', 'castable')
+            if n % 4 == 0 and n // 4 != 0 and (not single or k == 1):
+                out += [t, ('t', n + k)]
+                i += 3
+                continue
+        out.append(t)
+        i += 1
+    return out
+
+
 def out_of_fragment(V: VInfo, toks: list) -> str | None:
+    toks = absorb_occ(V, toks)
+    for a, b in zip(toks, toks[1:]):
+        if a[0] == 'o' and b[0] == 'o' and V.rows[b[1]]['nud']['kind'] == 'other' and V.rows[a[1]]['led']['kind'] in ('infix',) \
+                and V.rows[a[1]]['nud']['kind'] != 'group':
+            return 'operator-symbol-in-operand-position'   # `* *`, `+ div`: the second symbol is a name test / keyword name
+    return out_of_fragment_(V, toks)
+
+
+def out_of_fragment_(V: VInfo, toks: list) -> str | None:
     """token-level patterns that the level table does not describe (documented in docs/C04.md)"""
     for i, t in enumerate(toks):
         # `?` directly after `(` or `,` without a key specifier is taken as an argument placeholder by the parser
@@ -961,10 +1015,14 @@ def out_of_fragment(V: VInfo, toks: list) -> str | None:
             code = -1 if nxt is None else (atom_code(nxt[1]) if nxt[0] == 'a' else (op_code(nxt[1]) if nxt[0] == 'o' else -1))
             if code not in rhs:
                 return 'placeholder-position'
+    for a, b, c in zip(toks, toks[1:], toks[2:] + [None]):
+        if a[0] == 't' and b[0] == 'o' and c is not None and c[0] == 'o' and V.sym[b[1]] == '?' and V.sym[c[1]] == '?' \
+                and V.ver.startswith('31'):
+            return 'lookup-after-type'
     for a, b in zip(toks, toks[1:]):
-        if a[0] == 't' and b[0] == 'o' and V.sym[b[1]] in ('+', '*', '?'):
-            return 'occurrence-indicator'            # xgc:occurrence-indicators
-        if a[0] == 't' and b[0] == 'o' and V.sym[b[1]] == '(':
+        if a[0] == 't' and b[0] == 'o' and V.sym[b[1]] == '?' and (a[1] % 4 != 0 or a[1] // 4 == 0):
+            return 'lookup-after-type'               # `T? ? k`: outside the EBNF; accepted or not depending on the kind of type
+        if a[0] == 't' and (b[0] == 'o' and V.sym[b[1]] == '(' or b[0] == 'a' and b[1] == 11):
             return 'type-followed-by-parenthesis'    # `xs:string (` is tokenised as a constructor call
         if b[0] == 'o' and V.sym[b[1]] == '(' and a[0] == 'a' and a[1] != 2:
             return 'static-call-or-literal-call'     # `n1(..)` is a static FunctionCall (XPST0017), `1(..)` XPTY0004
@@ -1048,6 +1106,8 @@ def compare_tokens(run: Run, cases: list[tuple[str, list]], origin: str = 'gen')
         if ci != cs:
             run.disagree(Disagreement(case, ci, cm, cs, what='tree-vs-ebnf', site='Parser.expression / led / nud',
                                       tags=a['trig']))
+        elif ci != cm and 'F04j' in a['trig']:
+            st.count('model-tie-skipped:F04j')     # the model has the repaired occurrence-indicator rule (finding F04j)
         elif ci != cm:
             run.disagree(Disagreement(case, ci, cm, cs, what='model', site='operator table'))
         opaque = any(t[0] == 'a' and t[1] >= 7 for t in toks)      # operands whose text the Lean model does not render
@@ -1065,7 +1125,7 @@ def compare_tokens(run: Run, cases: list[tuple[str, list]], origin: str = 'gen')
                 run.disagree(Disagreement(dict(case, real_source=real_src), real_src, a['src'], what='source-text-model',
                                           site='XPathToken.source'))
         if tok is not None:
-            roundtrip(run, ver, src, tok, impl)
+            roundtrip(run, ver, src, tok, impl, extra=[f for f in a['trig'] if f == 'F04j'])
 
 
 # ------------------------------------------------------------------- (ii) source round trip
@@ -1116,7 +1176,7 @@ def roundtrip_tags(src: str) -> list:
     return ['F04g'] if trig_f04g(src) else []
 
 
-def roundtrip(run: Run, ver: str, src: str, tok, dumped: str) -> None:
+def roundtrip(run: Run, ver: str, src: str, tok, dumped: str, extra=()) -> None:
     st = run.stats
     try:
         src2 = tok.source
@@ -1129,14 +1189,15 @@ def roundtrip(run: Run, ver: str, src: str, tok, dumped: str) -> None:
     if again != dumped:
         run.disagree(Disagreement({'version': ver, 'source': src, 'unparsed': src2}, again, None, dumped,
                                   what='source-roundtrip', site='XPathToken.source',
-                                  tags=roundtrip_tags(src)))
+                                  tags=roundtrip_tags(src) + list(extra)))
         return
     if tok2 is not None and st.hist.get('roundtrip:evaluated', 0) < run.scale(400, 4000):
         v1, v2 = evaluate(ver, tok), evaluate(ver, tok2)
         st.count('roundtrip:evaluated')
         if v1 != v2:
             run.disagree(Disagreement({'version': ver, 'source': src, 'unparsed': src2}, v2, None, v1,
-                                      what='source-roundtrip-value', site='XPathToken.source', tags=roundtrip_tags(src)))
+                                      what='source-roundtrip-value', site='XPathToken.source',
+                                      tags=roundtrip_tags(src) + list(extra)))
 
 
 # --------------------------------------------------------- (iii) whitespace and comments
@@ -1483,7 +1544,8 @@ def sym_toks(V: VInfo, spec: list) -> list:
         elif s[0] == '$':
             out.append(('a', 2, int(s[1:])))
         elif s[0] == 'T':
-            out.append(('t', int(s[1:])))
+            # T0..T5 of the seed corpus: xs:integer, xs:string, xs:decimal?, xs:boolean, item(), node()
+            out.append(('t', [4, 8, 13, 16, 20, 24][int(s[1:])] if int(s[1:]) < 6 else int(s[1:])))
         else:
             out.append(('a', 1, int(s)))
     return out
@@ -1584,7 +1646,7 @@ def search(run: Run):
             if k == 'infix':
                 return [('o', o), operand]
             if k == 'typed':
-                return [('o', o), ('t', 0)]
+                return [('o', o), ('t', 4)]
             return [('o', o), ('a', 1, 1), ('c', V.rows[o]['led']['close'])]
         leds = V.infix + V.typed + V.bracket
         for o1 in leds:
@@ -1737,6 +1799,19 @@ def correspond(run: Run) -> None:
                         run.disagree(Disagreement({'version': v, 'source': s}, d, None, 'parses', what='general-corpus-parse'))
                     else:
                         roundtrip(run, v, s, tok, d)
+        for first, s in TYPE_TEXTS:
+            if base_of(v) < first:
+                continue
+            d, tok = impl_parse(v, s)
+            run.stats.evaluations += 1
+            run.stats.count('type-text')
+            try:
+                back = tok.source if tok is not None else d
+            except Exception as e:
+                back = f'ERR:OTHER:source:{type(e).__name__}'
+            if back != s:
+                run.disagree(Disagreement({'version': v, 'source': s}, back, None, s, what='source-roundtrip',
+                                          site='XPathToken.source of a sequence type'))
     expected_pass(run)
     options_pass(run, cases)
     alternatives_pass(run)
@@ -1801,7 +1876,35 @@ EXPECTED = [
     ('20', 'some $x in a, $y in b satisfies $x = $y', '(some ($ (x)) (a) ($ (y)) (b) (= ($ (x)) ($ (y))))'),
     ('30', 'n1(1)', 'ERR:XPST0017'),
     ('10', '-a | b', '(- (| (a) (b)))'), ('10', '-a * b', '(* (- (a)) (b))'), ('10', '-a div b', '(div (- (a)) (b))'),
+    # occurrence indicators (XPath 2.0 A.1.2 "occurrence-indicators": a `?`, `*`, `+` directly after a sequence type
+    # is its indicator; `empty-sequence()` takes none; SingleType takes only `?`).  The F04j cases (`item()* * 2`,
+    # `array(*)+ + 1`) are generated, not listed here, until fix-c04-4 is picked.
+    ('20', '() treat as empty-sequence() * 2', '(* (treat () (empty-sequence)) (2))'),
+    ('20', 'n instance of empty-sequence() * 2', '(* (instance (n) (empty-sequence)) (2))'),
+    ('20', 'n instance of empty-sequence() + 2', '(+ (instance (n) (empty-sequence)) (2))'),
+    ('20', 'n instance of xs:integer* * 2', '(* (instance (n) (: (xs) (integer))) (2))'),
+    ('20', 'n instance of xs:integer * * 2', '(* (instance (n) (: (xs) (integer))) (2))'),
+    ('20', 'n treat as xs:integer+ + 1', '(+ (treat (n) (: (xs) (integer))) (1))'),
+    ('20', 'n instance of element()? + 1', '(+ (instance (n) (element)) (1))'),
+    ('20', 'n instance of xs:integer+ - 1', '(- (instance (n) (: (xs) (integer))) (1))'),
+    ('20', 'n treat as node()* div 2', '(div (treat (n) (node)) (2))'),
+    ('20', 'n instance of xs:integer ? and n', '(and (instance (n) (: (xs) (integer))) (n))'),
+    ('20', '1 cast as xs:integer? * 2', '(* (cast (1) (: (xs) (integer))) (2))'),
+    ('20', '1 cast as xs:integer * 2', '(* (cast (1) (: (xs) (integer))) (2))'),
+    ('20', '1 castable as xs:integer + 2', '(+ (castable (1) (: (xs) (integer))) (2))'),
+    ('20', 'n instance of xs:integer * 2', 'ERR:XPST0003'), ('20', 'n instance of xs:integer + 2', 'ERR:XPST0003'),
+    ('20', 'n instance of empty-sequence()*', 'ERR:XPST0003'), ('20', 'n treat as empty-sequence()?', 'ERR:XPST0003'),
+    ('20', 'n instance of xs:integer* *', 'ERR:XPST0003'), ('20', '1 cast as xs:integer+', 'ERR:XPST0003'),
 ]
+
+# sequence types whose text must come back unchanged from `source` (the occurrence indicator is not visible in `tree`)
+_OCC_BASES = [('20', b) for b in ('xs:integer', 'item()', 'node()', 'text()', 'comment()', 'element()', 'attribute()',
+                                  'document-node()', 'processing-instruction()', 'element(a)', 'attribute(a, xs:string)',
+                                  'schema-element(a)', 'schema-attribute(a)')] + \
+             [('30', b) for b in ('function(*)', 'function(xs:integer) as xs:string')] + \
+             [('31', b) for b in ('map(*)', 'array(*)', 'map(xs:string, item()*)', 'array(xs:integer+)')]
+TYPE_TEXTS = [(v, f'n1 {kw} {b}{o}') for v, b in _OCC_BASES for o in ('', '?', '*', '+') for kw in ('instance of', 'treat as')] + \
+             [('20', 'n1 instance of empty-sequence()'), ('20', '1 cast as xs:integer?'), ('20', '1 castable as xs:integer?')]
 
 
 def full_parse_tree(ver: str, src: str, **options) -> str:
@@ -1884,7 +1987,7 @@ def body(run: Run) -> int:
                          'W3C level tables transcribed by hand in EPV/Spec/EBNF.lean',
                          're (CPython regex engine) executing the tokenizer pattern']
     run.assumptions += ['operands are abstract: which primary expressions may occur as path steps or call targets is outside the level table',
-                        'lexical constraint xgc:occurrence-indicators (type followed by + * ?) is outside the level table',
+                        'types are opaque tokens base x occurrence indicator; xgc:occurrence-indicators is the Lean normalisation absorbOcc',
                         'observation is the syntactic phase tdop.Parser.parse; static evaluation in XPath1Parser.parse is not part of C04']
     run.prove(['EPV.Props.C04', 'EPV.Props.C04Tables'], ['EPV.Lemmas.PrattTables', 'EPV.Lemmas.PrattComplete', 'EPV.Model.PrattLexer', 'EPV.Lemmas.PrattSource', 'EPV.Lemmas.PrattSourceAll', 'EPV.Lemmas.PrattEbnfComplete'])
     try:
